@@ -249,6 +249,27 @@ func init() {
 		})
 	}
 	p.Strata = append(p.Strata, mon.Stratum{
+		Name:       "tricky-pairs",
+		N:          n(len(trickyPairs) * 2 * 4 * len(AllDiffOpts)),
+		Exhaustive: always,
+		Run: func(c *mon.Ctx, i int) {
+			tp := trickyPairs[i%len(trickyPairs)]
+			if (i/len(trickyPairs))%2 == 1 {
+				tp[0], tp[1] = tp[1], tp[0]
+			}
+			how := (i / (2 * len(trickyPairs))) % 4
+			o := AllDiffOpts[(i/(8*len(trickyPairs)))%len(AllDiffOpts)]
+			a, _ := wrapText(tp[0], how)
+			b, _ := wrapText(tp[1], how)
+			if len(o.Keys) > 0 {
+				c.Skip("keyed option sets need keyed members")
+				return
+			}
+			c.Feature("tricky_pairs")
+			c01Judge(c, a, b, o)
+		},
+	})
+	p.Strata = append(p.Strata, mon.Stratum{
 		Name: "copies-made-by-a-multiset-patch",
 		N:    qt(1500, 100000),
 		Run: func(c *mon.Ctx, i int) {
